@@ -44,6 +44,32 @@ CALLS = {"CredsCall": "creds", "NextCall": "next", "RespCall": "response", "ErrC
 RETS = {"CredsRet", "NextRet", "RespRet", "ErrRet", "InitErrRet", "RegisterRet", "ExtInitErrRet", "ExtExitErrRet",
         "RestoreNextRet", "RestoreErrRet", "RouteRet"}
 
+# abstraction of request paths to the routes of the specification's route table (Rapid!RouteMethod)
+ROUTE_IDS = [
+    (r"/2018-06-01/ping", "ping"),
+    (r"/2018-06-01/runtime/invocation/next", "next"),
+    (r"/2018-06-01/runtime/invocation/[^/]+/response", "response"),
+    (r"/2018-06-01/runtime/invocation/[^/]+/error", "error"),
+    (r"/2018-06-01/runtime/init/error", "initerror"),
+    (r"/2018-06-01/runtime/restore/next", "restorenext"),
+    (r"/2018-06-01/runtime/restore/error", "restoreerror"),
+    (r"/2020-01-01/extension/register", "register"),
+    (r"/2020-01-01/extension/event/next", "extnext"),
+    (r"/2020-01-01/extension/init/error", "extiniterror"),
+    (r"/2020-01-01/extension/exit/error", "extexiterror"),
+    (r"/2020-08-15/logs", "logs"),
+    (r"/2022-07-01/telemetry", "telemetry"),
+    (r"/2021-04-23/credentials", "creds"),
+]
+
+
+def route_id(path):
+    for pat, rid in ROUTE_IDS:
+        if re.fullmatch(pat, path):
+            return rid
+    return "unknown"
+
+
 VALID_ET = re.compile(r"^(Runtime|Function)\.[A-Z][a-zA-Z]+$")
 
 
@@ -211,7 +237,8 @@ def project(raw_events, scenario, bound=None):
                 o["big"] = bool(ev.get("rawBody"))
                 o["feat"] = "accountId" in (ev.get("features") or "")
             elif kind == "RouteCall":
-                o["name"] = ev.get("cls", "")
+                o["name"] = route_id(ev.get("path", ""))
+                o["which"] = ev.get("method", "")
             elif kind == "CredsCall":
                 o["idc"] = ev.get("idc") or "ok"
             elif kind in ("RestoreErrCall",):
@@ -288,6 +315,8 @@ def project(raw_events, scenario, bound=None):
         elif kind == "StateSeen":
             o.update(e="Obs", who=who_of(ev.get("who", "")), name=ev.get("state", ""))
         elif kind in ("HookEnter", "HookLeave"):
+            if (ev.get("point", "") or "").startswith("drv."):
+                continue        # a pause point of the driver (e.g. a caller's stalled connection), not of the emulator
             o.update(e="Hook", ph="enter" if kind == "HookEnter" else "leave", point=ev.get("point", ""))
         elif kind == "Missing":
             # the driver expected an event of the emulator (e.g. the launch of a process) that did not come in time
